@@ -326,7 +326,7 @@ func checkC02(c *Ctx) {
 	r := c.Rep
 	p := c.Prog
 	r.Explain = "Three structural clauses each necessary for encode-then-decode to be the identity, decided for all values at once from the bit-provenance maps of every encoder/decoder pair (checker/bits): SYM - the set of struct fields whose bits reach the wire in Marshal equals the set of integer fields Unmarshal stores (a field encoded but never decoded, or the reverse, cannot round-trip); LAY - composing the encoder's map wire bit <- field bit with the decoder's map field bit <- wire bit is the identity on every field bit that reaches the wire and on every wire bit the decoder uses, for fixed parts and per-entry strides (24i+28 ...); DSP - the packet type / FMT each Marshal emits dispatches back to the same Go type and passes its decoder's own guard (C07-SELF and C07-GRD, re-run here). XR round-trip structure: setupBlockHeader/unpackBlockHeader invert each other on the type-specific octet (C15-TS)."
-	r.RuleText = "C02-SYM, C02-LAY per unit with encoder and decoder; C02-DSP; C02-XR."
+	r.RuleText = "C02-SYM, C02-LAY per unit with encoder and decoder; C02-DSP; C02-XR; C02-CNT; C02-XRH (no setupBlockHeader reads an XRHeader field it has not stored in the same call: the header is a function of the semantic fields, not of an earlier Marshal/Unmarshal)."
 	r.Trusted = []string{"go/ssa", "checker/bits", "checker/pe (DSP)", "registry"}
 	r.Assume = []string{"values fit their wire fields"}
 	r.NotCov("value-dependent behaviour of variable-length parts (TWCC chunk/delta lists, CCFB block counts, SDES/BYE texts, APP padding, RR profile-extension padding), list equality for []Packet and byte equality of re-marshalled packets, REMB bitrate quantisation (C14): these need arithmetic over run-time values; the clauses above are necessary, not sufficient")
@@ -418,6 +418,7 @@ func checkC02(c *Ctx) {
 	// XR
 	c15RoundTrip(c)
 	c02CountRoundTrip(c)
+	c02HeaderInputs(c)
 }
 
 // c02Dispatch re-runs the C07-SELF computation: the kinds a Marshal emits dispatch to its own type.
